@@ -1,0 +1,130 @@
+//! Instrumentation seams for deterministic simulation.
+//!
+//! Only compiled with the `verif_hooks` cargo feature, which is in no default
+//! feature set. Every function here is inert unless a simulator has installed a
+//! [`Hooks`] implementation, so enabling the feature alone does not change the
+//! behaviour of the library.
+
+use std::{
+    io,
+    path::Path,
+    sync::{
+        atomic::{AtomicBool, Ordering},
+        Arc, RwLock,
+    },
+    time::Duration,
+};
+
+/// The callbacks a simulator provides.
+pub trait Hooks: Send + Sync {
+    /// A scheduling / crash point at which nothing can fail.
+    fn point(&self, site: &'static str);
+    /// A scheduling / crash point right before a filesystem step. An `Err`
+    /// makes the step fail before it has any effect.
+    fn fs_step(&self, site: &'static str, a: &Path, b: Option<&Path>) -> io::Result<()>;
+    /// Called before a mutex is taken; returns only when `is_locked()` is false.
+    fn before_lock(&self, site: &'static str, is_locked: &dyn Fn() -> bool);
+    /// Called before a condition wait; returns only when `ready()` is true.
+    fn block_until(&self, site: &'static str, ready: &dyn Fn() -> bool);
+    /// Replaces a random draw from `0..n`. `None` means "use the real generator".
+    fn rand_below(&self, site: &'static str, n: u64) -> Option<u64>;
+    /// Simulated sleep. `false` means "not simulated, sleep for real".
+    fn sleep(&self, d: Duration) -> bool;
+    /// The calling thread is about to spawn a thread that will call `thread_enter`.
+    fn will_spawn(&self, what: &'static str);
+    /// First statement of a thread announced by `will_spawn`.
+    fn thread_enter(&self, what: &'static str);
+    /// Last action of a thread that called `thread_enter`.
+    fn thread_exit(&self);
+}
+
+static INSTALLED: AtomicBool = AtomicBool::new(false);
+static HOOKS: RwLock<Option<Arc<dyn Hooks>>> = RwLock::new(None);
+
+/// Installs the simulator's hooks for the whole process.
+pub fn install(h: Arc<dyn Hooks>) {
+    *HOOKS.write().unwrap_or_else(|e| e.into_inner()) = Some(h);
+    INSTALLED.store(true, Ordering::SeqCst);
+}
+
+/// Removes the installed hooks.
+pub fn uninstall() {
+    INSTALLED.store(false, Ordering::SeqCst);
+    *HOOKS.write().unwrap_or_else(|e| e.into_inner()) = None;
+}
+
+fn get() -> Option<Arc<dyn Hooks>> {
+    if !INSTALLED.load(Ordering::Relaxed) {
+        return None;
+    }
+    HOOKS.read().unwrap_or_else(|e| e.into_inner()).clone()
+}
+
+/// See [`Hooks::point`].
+pub fn point(site: &'static str) {
+    if let Some(h) = get() {
+        h.point(site)
+    }
+}
+
+/// See [`Hooks::fs_step`].
+pub fn fs_step(site: &'static str, a: &Path, b: Option<&Path>) -> io::Result<()> {
+    match get() {
+        Some(h) => h.fs_step(site, a, b),
+        None => Ok(()),
+    }
+}
+
+/// See [`Hooks::before_lock`].
+pub fn before_lock(site: &'static str, is_locked: &dyn Fn() -> bool) {
+    if let Some(h) = get() {
+        h.before_lock(site, is_locked)
+    }
+}
+
+/// See [`Hooks::block_until`].
+pub fn block_until(site: &'static str, ready: &dyn Fn() -> bool) {
+    if let Some(h) = get() {
+        h.block_until(site, ready)
+    }
+}
+
+/// See [`Hooks::rand_below`].
+pub fn rand_below(site: &'static str, n: u64) -> Option<u64> {
+    get().and_then(|h| h.rand_below(site, n))
+}
+
+/// See [`Hooks::sleep`].
+pub fn sleep(d: Duration) -> bool {
+    match get() {
+        Some(h) => h.sleep(d),
+        None => false,
+    }
+}
+
+/// See [`Hooks::will_spawn`].
+pub fn will_spawn(what: &'static str) {
+    if let Some(h) = get() {
+        h.will_spawn(what)
+    }
+}
+
+/// RAII guard returned by [`thread_enter`]; calls [`Hooks::thread_exit`] on drop.
+pub struct ThreadGuard(Option<Arc<dyn Hooks>>);
+
+impl Drop for ThreadGuard {
+    fn drop(&mut self) {
+        if let Some(h) = self.0.take() {
+            h.thread_exit()
+        }
+    }
+}
+
+/// See [`Hooks::thread_enter`].
+pub fn thread_enter(what: &'static str) -> ThreadGuard {
+    let h = get();
+    if let Some(h) = &h {
+        h.thread_enter(what)
+    }
+    ThreadGuard(h)
+}
